@@ -193,16 +193,8 @@ def http_dates():
                 problems.append('%r accepted, but re-serialisation fails: %s' % (data, exc))
                 continue
             one, two = first.value, second.value
-            same = False
-            try:
-                if (one.tzinfo is None) == (two.tzinfo is None):
-                    same = one == two
-                elif one.tzinfo is None:
-                    same = one == two.replace(tzinfo=None)     # naive input read as UTC
-                else:
-                    same = one == two
-            except TypeError:
-                same = False
+            # the same instant, and the same object: zone-awareness and offset included (a parsed date is kept in GMT)
+            same = (one.tzinfo is None) == (two.tzinfo is None) and one == two and one.isoformat() == two.isoformat()
             if not same:
                 problems.append('%r parses to %s but re-serialises to %r = %s' % (
                     data, one.isoformat(), composed, two.isoformat()))
